@@ -177,3 +177,42 @@ Proof.
   destruct (grid_lookup x o) as [b|] eqn:G; cbn [option_map]; [|discriminate]. destruct (nonbdy x b) eqn:N; [|discriminate].
   intros _. exists o, b. auto.
 Qed.
+
+(** * rock cell lists: in geometry order (strictly increasing cell indices), for each of the block orders *)
+From Coq Require Import Sorted.
+Definition rock_cell_of (x : xin) (r : nat) (n : str) : list Z :=
+  if in_rock x r n then match cell_index x n with Some c => [c] | None => [] end else [].
+Lemma cells_sorted_gen x r : NoDup (x_geo x) -> forall l pre, x_geo x = pre ++ l ->
+  StronglySorted Z.lt (flat_map (rock_cell_of x r) l) /\
+  Forall (fun c => (Z.of_nat (length pre) - x_natm x <= c)%Z) (flat_map (rock_cell_of x r) l).
+Proof.
+  intro ND. induction l as [|n l IH]; intros pre E; cbn [flat_map]; [split; constructor|].
+  assert (E' : x_geo x = (pre ++ [n]) ++ l) by (rewrite <- app_assoc; exact E).
+  destruct (IH _ E') as [S F]. rewrite app_length in F. cbn [length] in F.
+  assert (C : cell_index x n = Some (Z.of_nat (length pre) - x_natm x)%Z).
+  { apply cell_index_nodup; [exact ND|]. rewrite E. rewrite nth_error_app2 by lia. rewrite Nat.sub_diag. reflexivity. }
+  assert (W : Forall (fun c => (Z.of_nat (length pre) - x_natm x <= c)%Z) (flat_map (rock_cell_of x r) l)).
+  { eapply Forall_impl; [|exact F]. cbn beta. intros c Hc. lia. }
+  unfold rock_cell_of at 1 3. destruct (in_rock x r n); [|split; [exact S|exact W]]. rewrite C. cbn [app]. split.
+  - constructor; [exact S|]. eapply Forall_impl; [|exact F]. cbn beta. intros c Hc. lia.
+  - constructor; [lia|exact W].
+Qed.
+Theorem rock_cells_sorted_lemma x r : NoDup (x_geo x) -> StronglySorted Z.lt (cells_of_rock x r).
+Proof. intro ND. apply (proj1 (cells_sorted_gen x r ND (x_geo x) [] eq_refl)). Qed.
+
+(** the cell lists against the geometry's block order: the j-th underground block of the order (layer/column, or
+    dmplex) that is not a boundary block has cell j in the list of its rock type and in no other *)
+Theorem rock_cells_all_orders_lemma g l x cl :
+  block_name_list g = Ok l -> x_geo x = l -> x_natm x = Z.of_nat (length (gm_atm g)) -> NoDup l -> rocks_cells x = Ok cl ->
+  exists u, l = gm_atm g ++ u /\ Permutation u (map fst (gm_under g)) /\
+    forall j n, nth_error u j = Some n -> exists b, grid_lookup x n = Some b /\
+      (nonbdy x b = true -> exists r, r < length cl /\ In (Z.of_nat j) (nth r cl []) /\ forall r', In (Z.of_nat j) (nth r' cl []) -> r' = r) /\
+      (nonbdy x b = false -> forall r', ~ In (Z.of_nat j) (nth r' cl [])).
+Proof.
+  intros H G Na ND R. destruct (cell_index_all_orders_lemma _ _ _ H G Na ND) as [u [E [P [_ [_ U]]]]].
+  exists u. split; [exact E|split; [exact P|]]. intros j n N.
+  destruct (rock_cells_partition_lemma _ _ R) as [_ [_ Part]].
+  assert (I : In n (x_geo x)) by (rewrite G, E; apply in_or_app; right; eapply nth_error_In; exact N).
+  destruct (Part n I) as [b [c [Gl [C [A B]]]]]. rewrite (U _ _ N) in C. inversion C. subst c.
+  exists b. split; [exact Gl|split; [exact A|exact B]].
+Qed.
